@@ -344,20 +344,28 @@ def _contraction(prog, res, call):
 
 
 def _bias(prog, res, build, call):
-  adds = []
-  for st in ast.walk(call.node):
-    if isinstance(st, (ast.AugAssign, ast.Assign)) and 'self.bias' in \
-        names_read(st.value):
-      adds.append(st)
-  good = len(adds) == 1
-  if good:
-    st = adds[0]
-    gs = structural_guards(call.node, st) or []
-    good = (len(gs) == 1 and dotted(gs[0][0]) == 'self.use_bias' and gs[0][1]
-            and isinstance(st, ast.AugAssign) and isinstance(st.op, ast.Add))
+  # by value: for use_bias in (True, False) x units in (1, other) the value
+  # that call() returns is `<contraction> + self.bias` exactly when use_bias
+  from .C14 import _cfg_trace, _closed_return
+  good = True
+  for use_bias in (True, False):
+    for units in (1, 2):
+      cfg = {'use_bias': use_bias, 'units': units, 'clip_value_min': None,
+             'clip_value_max': None}
+      trace = _cfg_trace(call, cfg)
+      v = _closed_return(call, trace, {'inputs'})
+      reads = 'self.bias' in names_read(v)
+      added = isinstance(v, ast.BinOp) and isinstance(v.op, ast.Add) and (
+          dotted(v.right) == 'self.bias' or dotted(v.left) == 'self.bias')
+      if use_bias:
+        ok = added and sum(1 for n in ast.walk(v) if dotted(n) == 'self.bias'
+                           and isinstance(n, ast.Attribute)) == 1
+      else:
+        ok = not reads
+      good = good and ok
   res.check(good, 'W2', '%s|bias-add' % call.qualname,
-            call.loc(adds[0]) if adds else call.loc(),
-            'result += self.bias exactly under `if self.use_bias`',
+            call.loc(),
+            'the returned value is <contraction> + self.bias exactly when use_bias',
             'the bias must be added (+=) exactly under `if self.use_bias:`')
   sites = [s for s in wiring.find_add_weights(prog, build)
            if 'LINEAR_LAYER_BIAS_NAME' in s[1]]
@@ -368,8 +376,15 @@ def _bias(prog, res, build, call):
   res.check(good, 'W2', '%s|bias-variable' % build.qualname, build.loc(),
             'the bias variable exists exactly under use_bias',
             'the bias variable is not created under `if self.use_bias:`')
-  ret = [s for s in call.node.body if isinstance(s, ast.Return)]
-  res.check(bool(ret) and dotted(ret[-1].value) == 'result', 'W2',
-            '%s|returns-result' % call.qualname, call.loc(),
+  # every path returns a value computed from the kernel (the contraction)
+  rets = [s for s in ast.walk(call.node) if isinstance(s, ast.Return)]
+  vals = []
+  for use_bias in (True, False):
+    for units in (1, 2):
+      cfg = {'use_bias': use_bias, 'units': units, 'clip_value_min': None,
+             'clip_value_max': None}
+      vals.append(_closed_return(call, _cfg_trace(call, cfg), {'inputs'}))
+  res.check(bool(rets) and all('self.kernel' in names_read(v) for v in vals),
+            'W2', '%s|returns-result' % call.qualname, call.loc(),
             'call returns the contracted (and biased) result',
-            'Linear.call does not return `result`')
+            'Linear.call does not return the contraction with the kernel')
